@@ -15,8 +15,8 @@ Definition acyclic (rs : list row) : Prop := forall a, ~ reach rs a a.
 Definition rows_wf (s : st) : Prop :=
   forall r, In r (rows s) -> is_chained s (rparent r) = true /\ exists_c s (rchild r) = true.
 (* one dataset per (collection, type, data ID): the unique constraints of the tags / dataset tables *)
-Definition cont_ok (cn : list ent) : Prop :=
-  forall e1 e2, In e1 cn -> In e2 cn -> ecoll e1 = ecoll e2 -> ety e1 = ety e2 -> edid e1 = edid e2 -> e1 = e2.
+Definition ekey (e : ent) : N * N * N := (ecoll e, ety e, edid e).
+Definition cont_ok (cn : list ent) : Prop := NoDup (map ekey cn).
 (* summaries are supersets of the contents *)
 Definition summ_ok (s : st) : Prop :=
   forall e, In e (cont s) ->
@@ -387,12 +387,15 @@ Proof.
   - eapply edit_refused_same; eauto.
 Qed.
 
+Ltac wf_split := split; [|split; [|split; [|split; [|split]]]].
+
 Lemma step_wf : forall s o, wf s -> wf (fst (step s o)).
 Proof.
-  intros s o [A [W [PU [CO [SO CN]]]]]. destruct o as [n t|n|c ty d k|k p cs]; simpl.
+  intros s o Hwf. pose proof Hwf as [A [W [PU [CO [SO CN]]]]].
+  destruct o as [n t|n|c ty d k|k p cs]; simpl.
   - (* register *)
-    destruct (ctype_of (colls s) n) eqn:T; simpl; [repeat split; assumption|].
-    repeat split; try assumption.
+    destruct (ctype_of (colls s) n) eqn:T; simpl; [exact Hwf|].
+    wf_split; simpl; try assumption.
     + intros r Hr. simpl in Hr. destruct (W r Hr) as [H1 H2]. unfold is_chained, exists_c in *. simpl.
       destruct (ctype_of (colls s) (rparent r)) eqn:E1; [|discriminate].
       destruct (ctype_of (colls s) (rchild r)) eqn:E2; [|discriminate].
@@ -401,13 +404,13 @@ Proof.
       apply NoDup_app_disj; [assumption|constructor; [simpl; tauto|constructor]|].
       intros x Hx [<-|[]]. eapply ctype_of_none_notin; eauto.
   - (* remove collection *)
-    destruct (ctype_of (colls s) n) eqn:T; simpl; [|repeat split; assumption].
-    destruct (existsb (fun r => N.eqb (rchild r) n) (rows s)) eqn:Ex; simpl; [repeat split; assumption|].
-    repeat split; simpl.
+    destruct (ctype_of (colls s) n) eqn:T; simpl; [|exact Hwf].
+    destruct (existsb (fun r => N.eqb (rchild r) n) (rows s)) eqn:Ex; simpl; [exact Hwf|].
+    wf_split; simpl.
     + eapply acyclic_sub; [|exact A]. intros x y [r [Hr Hxy]]. apply filter_In in Hr. exists r. tauto.
     + intros r Hr. simpl in Hr. apply filter_In in Hr. destruct Hr as [Hr Hne].
       destruct (W r Hr) as [H1 H2]. unfold is_chained, exists_c in *. simpl.
-      assert (rparent r <> n) by (intro; subst; rewrite N.eqb_refl in Hne; discriminate).
+      assert (rparent r <> n) by (intro Hq; rewrite Hq, N.eqb_refl in Hne; discriminate).
       assert (rchild r <> n).
       { intro Hc. assert (existsb (fun r => N.eqb (rchild r) n) (rows s) = true); [|congruence].
         apply existsb_exists. exists r. split; [assumption|]. apply N.eqb_eq. assumption. }
@@ -417,47 +420,51 @@ Proof.
                   filter (fun x => negb (N.eqb (rparent x) n)) (prows (rows s) q)).
       { unfold prows. rewrite filter_filter. apply filter_ext_in'. intros. apply andb_comm. }
       rewrite E. apply NoDup_filter_map. apply PU.
-    + intros e1 e2 H1 H2. apply filter_In in H1, H2. apply CO; tauto.
-    + apply filter_In in H. destruct H as [Hin Hne]. destruct (SO e Hin) as [S1 _].
-      apply memNN_filter_ne; [|assumption]. simpl. intro; subst. rewrite N.eqb_refl in Hne. discriminate.
-    + apply filter_In in H. destruct H as [Hin Hne]. destruct (SO e Hin) as [_ S2].
-      apply memNN_filter_ne; [|assumption]. simpl. intro; subst. rewrite N.eqb_refl in Hne. discriminate.
+    + unfold cont_ok in *. clear -CO. induction (cont s) as [|e l IH]; simpl; [constructor|].
+      inversion CO; subst. destruct (negb (N.eqb (ecoll e) n)); simpl; [|auto]. constructor; [|auto].
+      intro Hin. apply H1. apply in_map_iff in Hin. destruct Hin as [e' [E He']]. apply filter_In in He'.
+      rewrite <- E. apply in_map. tauto.
+    + intros e He. simpl in He. apply filter_In in He. destruct He as [Hin Hne]. destruct (SO e Hin) as [S1 S2].
+      assert (ecoll e <> n) by (intro Hq; rewrite Hq, N.eqb_refl in Hne; discriminate).
+      split; apply memNN_filter_ne; simpl; assumption.
     + unfold colls_ok in *. simpl. apply NoDup_map_filter. assumption.
   - (* put / associate *)
-    destruct (ctype_of (colls s) c) as [[| |]|] eqn:T; simpl; try (repeat split; assumption);
-      (destruct (lookup_ent (cont s) c ty d) as [k'|] eqn:L; simpl;
-       [destruct (N.eqb k k' && _); simpl; repeat split; assumption|]);
-      (repeat split; try assumption; simpl;
-       [ intros e1 e2 H1 H2 Ec Et Ed; apply in_app_iff in H1, H2;
-         destruct H1 as [H1|[<-|[]]], H2 as [H2|[<-|[]]];
-         [ apply CO; assumption
-         | exfalso; simpl in *; eapply lookup_ent_none; eauto
-         | exfalso; simpl in *; eapply lookup_ent_none; [exact L|exact H2|]; simpl in *; repeat split; congruence
-         | reflexivity ]
-       | apply in_app_iff in H; destruct H as [H|[<-|[]]];
-         [apply memNN_cons; apply SO; assumption|simpl; rewrite !N.eqb_refl; reflexivity]
-       | apply in_app_iff in H; destruct H as [H|[<-|[]]];
-         [apply memNN_cons; apply SO; assumption|simpl; rewrite !N.eqb_refl; reflexivity] ]).
+    destruct (ctype_of (colls s) c) as [t|] eqn:T; simpl; [|exact Hwf].
+    assert (G : forall t', wf (fst (match lookup_ent (cont s) c ty d with
+          | Some k' => if N.eqb k k' && ctype_eqb t' CTagged then (s, Done) else (s, Refused EConflict)
+          | None => (mkSt (colls s) (rows s) (cont s ++ [mkEnt c ty d k]) ((c, ty) :: summ s) ((c, gov d) :: gsumm s), Done)
+          end))).
+    { intro t'. destruct (lookup_ent (cont s) c ty d) as [k'|] eqn:L; simpl.
+      - destruct (N.eqb k k' && ctype_eqb t' CTagged); exact Hwf.
+      - wf_split; simpl; try assumption.
+        + unfold cont_ok in *. rewrite map_app. simpl. apply NoDup_app_disj; [assumption|constructor; [simpl; tauto|constructor]|].
+          intros x Hx [<-|[]]. apply in_map_iff in Hx. destruct Hx as [e [E He]].
+          unfold ekey in E. simpl in E. inversion E. eapply lookup_ent_none; eauto.
+        + intros e He. simpl in He. apply in_app_iff in He. destruct He as [He|[<-|[]]].
+          * destruct (SO e He). split; apply memNN_cons; assumption.
+          * simpl. rewrite !N.eqb_refl. simpl. split; reflexivity. }
+    destruct t; [apply G|apply G|exact Hwf].
   - (* chain edit *)
     destruct (edit s k p cs) as [s' [|e]] eqn:E; simpl.
     + pose proof (edit_done _ _ _ _ _ E) as [Hs' _].
-      repeat split.
+      wf_split.
       * eapply edit_acyclic; eauto.
       * eapply edit_rows_wf; eauto.
       * subst s'. simpl. apply apply_edit_pos_unique. assumption.
       * subst s'. assumption.
-      * subst s'. apply SO. assumption.
-      * subst s'. apply SO. assumption.
+      * subst s'. exact SO.
       * subst s'. assumption.
-    + apply edit_refused_same in E. subst. repeat split; assumption.
+    + apply edit_refused_same in E. subst. exact Hwf.
 Qed.
 
 Lemma init_wf : wf init.
 Proof.
-  repeat split; simpl; try tauto.
+  wf_split; simpl.
   - intros a R. induction R; [destruct H as [r [[] _]]|assumption].
+  - intros r [].
   - intro p. constructor.
-  - intros e1 e2 [].
+  - constructor.
+  - intros e [].
   - constructor.
 Qed.
 Lemma run_wf : forall ops s, wf s -> wf (run s ops).
